@@ -184,6 +184,22 @@ class Sym:
             self._dom = cfg.dominators(self.fn)
         return self._dom
 
+    def _two_variant_discr(self, op):
+        """the switch operand is the discriminant of an Option / Result / ControlFlow / Poll value"""
+        pl = op.get("pl")
+        if not pl or pl["p"]:
+            return False
+        ds = self.du.whole_defs(pl["l"])
+        if len(ds) != 1 or ds[0][2] != "stmt" or ds[0][3]["rhs"]["rv"] != "discr":
+            return False
+        src = ds[0][3]["rhs"]["pl"]
+        ty = self.fn.locals[src["l"]] if not src["p"] else None
+        if ty is None:
+            # a field/deref path: look the type up through the symbolic value when it names a call result
+            v = self.place(src)
+            return bool(re.search(r"(Option::<T>::|Result::<T, E>::|::get\(|::take\(|Try>::branch|::find\(|::position\(|::next\)?$|binary_search)", v))
+        return re.match(r"(std|core)::(option::Option|result::Result|ops::ControlFlow|task::Poll)<", ty.lstrip("&").replace("mut ", "")) is not None
+
     def edge_fact(self, b, target):
         """fact implied by taking edge b->target of a switch: (expr, op, value) or None"""
         t = self.fn.blocks[b]["term"]
@@ -192,7 +208,10 @@ class Sym:
         e = self.val(t["discr"])
         cases = t["cases"]
         if target == t["otherwise"] and all(c[1] != target for c in cases):
-            return (e, "notin", tuple(sorted(c[0] for c in cases)))
+            vals = tuple(sorted(c[0] for c in cases))
+            if len(vals) == 1 and vals[0] in (0, 1) and self._two_variant_discr(t["discr"]):
+                return (e, "==", 1 - vals[0])  # Option / Result / ControlFlow: "not variant k" is "the other variant"
+            return (e, "notin", vals)
         vs = [c[0] for c in cases if c[1] == target]
         if len(vs) == 1 and target != t["otherwise"]:
             return (e, "==", vs[0])
